@@ -140,7 +140,7 @@ func (w *world) do(conn int, req *refcodec.Msg) (*stepResult, *fail) {
 			}
 		}
 	}
-	if v.Open && rep.Type != refcodec.Rlerror && mutating(req.Type) && exp.Why == "operation on an xattr-read fid" {
+	if exp.AnyErr && mutating(req.Type) && exp.Why == "operation on an xattr-read fid" {
 		w.desync = true
 	}
 	w.learn(conn, req, rep, calls)
